@@ -29,6 +29,31 @@ ApplyEdge(n, ue, a, b, kind) ==
        THEN [res |-> "cycle", ue |-> ue]
        ELSE [res |-> "ok", ue |-> Append(ue, <<a, b, kind>>)]
 
+(***************************************************************************)
+(* The same with the descendant map D of the accepted edges carried along   *)
+(* (D[x] = nodes reachable from x), so that the cycle test and the update   *)
+(* are linear in n instead of a reachability search per call.  Used by the  *)
+(* trace monitor for large inputs; BuilderCalls checks D = DescOf(ue).      *)
+(***************************************************************************)
+DescOf(n, ue) == [x \in 1..n |-> ReachFrom(n, PairsOfSeq(ue), x)]
+DescAdd(n, D, a, b) == [x \in 1..n |-> IF x = a \/ a \in D[x] THEN D[x] \cup {b} \cup D[b] ELSE D[x]]
+
+ApplyEdgeD(n, ue, D, a, b, kind) ==
+  LET i == EdgeIndexOf(ue, a, b) IN
+  IF i # 0
+  THEN [res |-> "ok", ue |-> [ue EXCEPT ![i] = <<a, b, kind>>], D |-> D]
+  ELSE IF a = b \/ a \in D[b]
+       THEN [res |-> "cycle", ue |-> ue, D |-> D]
+       ELSE [res |-> "ok", ue |-> Append(ue, <<a, b, kind>>), D |-> DescAdd(n, D, a, b)]
+
+ApplyEdgesD(n, ue, D, pairs, kind) ==
+  LET F[k \in 0..Len(pairs)] ==
+        IF k = 0 THEN [res |-> "ok", ue |-> ue, D |-> D]
+        ELSE LET p == F[k-1] IN
+             IF p.res = "cycle" THEN p
+             ELSE ApplyEdgeD(n, p.ue, p.D, pairs[k][1], pairs[k][2], kind)
+  IN F[Len(pairs)]
+
 (* add_logic_edges / add_contains_edges: left to right, stop at the first   *)
 (* rejected pair, keep what was accepted before it.                         *)
 ApplyEdges(n, ue, pairs, kind) ==
